@@ -93,6 +93,7 @@ def minimise(engine, plan, res, cap=300):
                 break
             budget -= 1
             try:
+                journal(cand, replay=True)
                 r = engine.execute(cand, replay=True)
             except Exception:
                 continue
@@ -131,6 +132,7 @@ _minimised_raw = {}
 def _worker_chunk(args):
     engine_name, prop, config, tier, batch_seed, indices, want_digests, do_min = args
     global _engine
+    faulthandler.enable()
     faulthandler.dump_traceback_later(600, exit=True)
     try:
         if _engine is None or _engine.name != engine_name:
@@ -148,6 +150,7 @@ def _worker_chunk(args):
             plan["engine"] = engine_name
             plan["property"] = prop
             try:
+                journal(plan)
                 res = _engine.execute(plan, replay=False)
             except HarnessError as e:
                 out["harness_errors"].append({"index": i, "error": str(e)})
@@ -184,9 +187,24 @@ def _worker_chunk(args):
             else:
                 out["harness_errors"].append({"index": i, "error": res.get("detail", "harness_error")})
         out["distinct"] = {k: sorted(v) for k, v in out["distinct"].items()}
+        journal(None)
         return out
     finally:
         faulthandler.cancel_dump_traceback_later()
+
+
+def journal(plan, replay=False):
+    """The plan being executed, on tmpfs: if the code under test kills the interpreter (a CasADi
+    segfault on a mangled cache file, say) the parent can still say which plan it was."""
+    p = os.path.join(scratch_root(), "current_plan.json")
+    if plan is None:
+        try:
+            os.remove(p)
+        except OSError:
+            pass
+        return
+    with open(p, "w") as f:
+        json.dump({"plan": plan, "replay": replay}, f, default=str)
 
 
 def strip(res):
@@ -228,6 +246,24 @@ def run_replay(engine_name, path):
         rec = json.load(f)
     res = engine.execute(rec["plan"], replay=True)
     return rec, res
+
+
+def replay_outer(prop, path, as_json):
+    """Run the replay in a child interpreter so that a plan that kills the interpreter is reported
+    as a violation instead of taking the replay command down with it."""
+    out = subprocess.run([PY, os.path.join(VERIF, "bin", "check"), prop, "--replay-inner", path] + (["--json"] if as_json else []),
+                         capture_output=True, text=True, timeout=1200, env=dict(os.environ, PYTHONHASHSEED="0"))
+    if out.returncode < 0 or out.returncode >= 128:
+        res = {"verdict": "violation", "property": prop, "kind": "process_crashed", "site": "?", "shape": [],
+               "detail": "interpreter died with status %d" % out.returncode, "digest": None}
+        if as_json:
+            print("REPLAY-JSON " + json.dumps(res))
+        print("VIOLATION property=%s replay=%s" % (prop, path))
+        print("  signature=%s" % json.dumps({k: res[k] for k in ("property", "kind", "site", "shape")}))
+        print("  detail=%s" % res["detail"])
+        return 1
+    sys.stdout.write(out.stdout)
+    return out.returncode
 
 
 def fresh_replay(prop, path):
@@ -333,8 +369,7 @@ def run_check(prop, engine_name, tier, level, rule, assumptions, components, sel
                     out = fut.result()
                     _merge(total, out)
         except cf.process.BrokenProcessPool as e:
-            print("HARNESS-ERROR worker died (timeout or crash): %s" % e)
-            return 2
+            return _worker_died(prop, engine_name, e)
     # ---- determinism self-test: fresh interpreter, other hash seed, other worker count, other scratch
     selftest = {"checked": 0, "mismatches": 0}
     if selftest_n and not os.environ.get("VERIF_NO_SELFTEST"):
@@ -460,6 +495,44 @@ def run_check(prop, engine_name, tier, level, rule, assumptions, components, sel
         exit_code))
     cleanup_scratch()
     return exit_code
+
+
+def _worker_died(prop, engine_name, e):
+    """A worker process died.  Find out whether one of the plans in flight kills a fresh interpreter
+    too: then the code under test crashed the process, which is a violation, not a harness error."""
+    import glob
+
+    culprits = []
+    os.makedirs(os.path.join(VERIF, "replays", prop), exist_ok=True)
+    for jp in sorted(glob.glob(os.path.join(scratch_top(), "w*", "current_plan.json"))):
+        try:
+            with open(jp) as f:
+                j = json.load(f)
+        except Exception:
+            continue
+        plan = j["plan"]
+        path = os.path.join(VERIF, "replays", prop, "crashed-%s.json" % sig_hash(plan))
+        rec = {"property": prop, "engine": engine_name, "config": plan.get("config"), "seed": plan.get("seed"),
+               "plan": plan, "signature": {"property": prop, "kind": "process_crashed", "site": "?", "shape": []},
+               "detail": "the interpreter died while executing this plan"}
+        with open(path, "w") as f:
+            json.dump(rec, f, indent=1, default=str)
+        out = subprocess.run([PY, os.path.join(VERIF, "bin", "check"), prop, "--replay", path, "--json"],
+                             capture_output=True, text=True, timeout=900, env=dict(os.environ, PYTHONHASHSEED="0"))
+        if "kind\": \"process_crashed" in out.stdout or '"kind": "process_crashed"' in out.stdout:
+            culprits.append(path)
+        else:
+            os.remove(path)
+    if culprits:
+        for c in culprits:
+            print("VIOLATION property=%s replay=%s" % (prop, c))
+            print("  signature=%s" % json.dumps({"property": prop, "kind": "process_crashed"}))
+            print("  detail=executing this plan kills the Python interpreter (crash inside the code under test or a library it calls)")
+        cleanup_scratch()
+        return 1
+    print("HARNESS-ERROR worker died (timeout or crash) and no plan in flight reproduces it: %s" % e)
+    cleanup_scratch()
+    return 2
 
 
 def _merge(total, out):
